@@ -1,6 +1,7 @@
 package transports
 
 import (
+	"github.com/zishang520/engine.io-go-parser/packet"
 	"github.com/zishang520/engine.io/v2/types"
 	verif "github.com/zishang520/engine.io/v2/internal/zzverif"
 )
@@ -55,9 +56,110 @@ func VerifH_C10_polling_body() {
 		verif.Assert(len(w.status) == 1 && w.status[0] == 200, "a body within the limit is accepted")
 		if B > 0 {
 			verif.Assert(delivered == 1, "its packet is delivered once")
+			if delivered == 1 {
+				pk := rec.args[rec.index("packet", 0)][0].(*packet.Packet)
+				verif.Assert(sameBytes(readAll(pk.Data), body[1:]), "and carries the whole body, however the body reader fragments it")
+			}
 		}
 	}
 	verif.Assert(w.writeCalls == 1, "exactly one response")
 	verif.Assert(p.dataCtx.Load() == nil, "data-request slot released")
 	_ = types.NULL
+}
+
+// VerifH_C02_polling_request_body: a polling data request whose body reader returns the
+// body in short pieces (1 or 2 bytes per Read, or everything at once), with the length
+// declared or not: every packet of the payload is delivered once, in order, intact.
+func VerifH_C02_polling_request_body() {
+	p, rec := newPolling("4")
+	p.SetMaxHttpBufferSize(1 << 20)
+	n := verif.Choose(3) + 1
+	var body []byte
+	var want [][]byte
+	for i := 0; i < n; i++ {
+		d := verif.BytesN(verif.Int(0, 2))
+		for _, b := range d {
+			verif.Assume(b != 0x1e && b < 0x80)
+		}
+		if i > 0 {
+			body = append(body, 0x1e)
+		}
+		body = append(body, '4')
+		body = append(body, d...)
+		want = append(want, d)
+	}
+	fb := &fakeBody{data: body, chunk: [3]int{0, 1, 2}[verif.Choose(3)]}
+	ctx, w := newCtx("POST", "4")
+	if verif.Bool() {
+		ctx.Request().ContentLength = int64(len(body))
+	} else {
+		ctx.Request().ContentLength = -1
+	}
+	ctx.Request().Body = fb
+	ctx.Request().Header.Set("Content-Type", "text/plain;charset=UTF-8")
+	p.OnRequest(ctx)
+	verif.Settle()
+	verif.Assert(len(w.status) == 1 && w.status[0] == 200, "the data request is acknowledged")
+	verif.Assert(rec.count("packet") == n, "every packet of the payload is delivered once")
+	if rec.count("packet") == n {
+		for i := range want {
+			pk := rec.args[rec.index("packet", i)][0].(*packet.Packet)
+			verif.Assert(pk.Type == packet.MESSAGE && sameBytes(readAll(pk.Data), want[i]), "in order, bytes intact")
+		}
+	}
+}
+
+// VerifH_C10_polling_two_bodies: two data requests in a row on one polling session: the
+// first is refused as too large (its length declared or only discovered while reading) or
+// accepted, the second is acceptable: what is delivered for the second request is exactly
+// its own body, so nothing refused earlier ever reaches the application and no delivered
+// message exceeds the limit.
+func VerifH_C10_polling_two_bodies() {
+	p, rec := newPolling("4")
+	limit := int64(verif.Int(2, 4))
+	p.SetMaxHttpBufferSize(limit)
+	mk := func(n int, fill byte) []byte {
+		b := make([]byte, n)
+		for i := range b {
+			b[i] = fill
+		}
+		if n > 0 {
+			b[0] = '4'
+		}
+		return b
+	}
+	b1 := mk(verif.Concretize(verif.Int(1, 6)), 'x')
+	b2 := mk(verif.Concretize(verif.Int(1, int(limit))), 'y')
+	post := func(body []byte, declared bool) *fakeWriter {
+		ctx, w := newCtx("POST", "4")
+		if declared {
+			ctx.Request().ContentLength = int64(len(body))
+		} else {
+			ctx.Request().ContentLength = -1
+		}
+		ctx.Request().Body = &fakeBody{data: body, chunk: 2}
+		ctx.Request().Header.Set("Content-Type", "text/plain;charset=UTF-8")
+		p.OnRequest(ctx)
+		verif.Settle()
+		return w
+	}
+	w1 := post(b1, verif.Bool())
+	first := rec.count("packet")
+	if int64(len(b1)) > limit {
+		verif.Assert(first == 0 && len(w1.status) == 1 && w1.status[0] == 413, "an oversized first body is refused with 413 and not delivered")
+	} else {
+		verif.Assert(first == 1 && len(w1.status) == 1 && w1.status[0] == 200, "an acceptable first body is delivered")
+	}
+	if p.ReadyState() != "open" {
+		return
+	}
+	w2 := post(b2, verif.Bool())
+	verif.Assert(len(w2.status) == 1 && w2.status[0] == 200, "the acceptable second body is accepted")
+	verif.Assert(rec.count("packet") == first+1, "and delivers exactly one packet")
+	if rec.count("packet") == first+1 {
+		pk := rec.args[rec.index("packet", first)][0].(*packet.Packet)
+		got := readAll(pk.Data)
+		verif.Assert(int64(len(got))+1 <= limit, "no delivered message exceeds the limit")
+		verif.Assert(sameBytes(got, b2[1:]), "the second request delivers exactly its own body")
+	}
 }
